@@ -437,6 +437,15 @@ def py_run(p, root):
     sys.path[:0] = add_path
     importlib.invalidate_caches()
     builtins.task = _TaskShim
+    pending = []                                     # set_global_ctx() executed inside a call of the running statement
+    names_ = [n for n, _ in p["ctxs"]]
+
+    def _set_global_ctx(name):
+        if name.split(".") not in names_:
+            raise NameError(f"global context '{name}' does not exist")
+        pending.append(names_.index(name.split(".")))
+
+    builtins.pyscript = types.SimpleNamespace(set_global_ctx=_set_global_ctx)
     mains = []
     try:
         for name, rel in p["ctxs"]:
@@ -465,14 +474,24 @@ def py_run(p, root):
                     outs.append("NameError")
                 continue
             src = "\n".join(r_stmt(p["funcs"], s)) + "\n"
+            if s[0] == "call":
+                # `x = f(..)`: the call runs in the current namespace; a set_global_ctx() executed somewhere below it
+                # takes effect when control is back at the top level, i.e. before `x` is bound
+                src = f"__r__ = {r_atom(s[2])}({', '.join(r_atom(a) for a in s[3])})\n"
+            ns = mains[cur[op[1]]].__dict__
             try:
-                exec(compile(src, f"<{'.'.join(p['ctxs'][op[1]][0])}>", "exec"), mains[cur[op[1]]].__dict__)  # noqa: S102
+                exec(compile(src, f"<{'.'.join(p['ctxs'][op[1]][0])}>", "exec"), ns)  # noqa: S102
                 outs.append("ok")
             except RecursionError:
                 outs.append("diverges")
                 return outs, None
             except Exception as e:  # pylint: disable=broad-except
                 outs.append(exc_name(e))
+            if pending:
+                cur[op[1]] = pending[-1]
+                del pending[:]
+            if s[0] == "call" and "__r__" in ns:
+                mains[cur[op[1]]].__dict__[s[1]] = ns.pop("__r__")
         # ---- dump
         mods = [(".".join(n), m) for (n, _), m in zip(p["ctxs"], mains)]
         for k in sorted(set(sys.modules) - before_mods):
@@ -515,6 +534,8 @@ def py_run(p, root):
             sys.modules.pop(k, None)
         if hasattr(builtins, "task"):
             del builtins.task
+        if hasattr(builtins, "pyscript"):
+            del builtins.pyscript
         importlib.invalidate_caches()
 
 
@@ -674,6 +695,36 @@ def overlap_case(rng):
             ["run", 0, ["call", "res", V("both"), []]]]
     return {"kind": "interp", "tag": "overlap", "funcs": funcs, "files": files, "ctxs": ctxs, "ops": ops,
             "tags": ["overlapping-activations", "two-files" if two_ctx else "one-file"]}
+
+
+def deep_setctx_case(rng):
+    """pyscript.set_global_ctx() executed 1-3 calls below a top-level statement (optionally inside try/except), then
+    top-level statements that read, define and call in the new context, then the switch back"""
+    depth = rng.choice([1, 2, 2, 3, 3])
+    in_try = rng.random() < 0.4
+    a, b = rng.randrange(1, 50), rng.randrange(50, 99)
+    sw_body = [["setctx", ["file", "s2"]]]
+    if in_try:
+        sw_body = [["try", [["setctx", ["file", "s2"]]], [["assign", "e", L(1)]]]]
+    funcs = [["sw", [], [], sw_body + [["ret", L(a)]]],
+             ["mid", [], [], [["assign", "t", L(3)], ["call", "r", V("sw"), []], ["ret", V("r")]]],
+             ["outer", [], [], [["assign", "t", L(4)], ["try", [["call", "r", V("mid"), []]], []], ["ret", V("t")]]],
+             ["g", [], ["x"], [["add", "x", V("x"), L(1)], ["ret", V("x")]]]]
+    entry = ["sw", "mid", "outer"][depth - 1]
+    ops = [["run", 0, ["assign", "x", L(a)]], ["run", 1, ["assign", "x", L(b)]], ["run", 1, ["assign", "only2", L(7)]],
+           ["run", 0, ["def", "sw", 0]], ["run", 0, ["def", "mid", 1]], ["run", 0, ["def", "outer", 2]]]
+    k = len(ops)
+    ops += [["run", 0, ["call", "res", V(entry), []]],          # the switch happens below this statement
+            ["run", 0, ["assign", "y", V("x")]],                # reads the new context's global
+            ["run", 0, ["assign", "fresh", L(5)]],              # defines a global there
+            ["run", 0, ["assign", "z", V("only2")]],            # a name that only exists in the new context
+            ["run", 0, ["def", "g", 3]], ["run", 0, ["call", "q", V("g"), []]],
+            ["run", 1, ["assign", "seen", V("fresh")]],         # the other evaluator of that context sees the definitions
+            ["run", 0, ["setctx", ["file", "s1"]]],
+            ["run", 0, ["assign", "w", V("x")]], ["run", 0, ["assign", "back", L(1)]]]
+    return {"kind": "interp", "tag": "deep-setctx", "funcs": funcs, "files": [], "ctxs": [S1, S2], "ops": ops,
+            "switch_ops": {str(k): "file.s2"},
+            "tags": ["setctx-depth-%d" % depth] + (["setctx-in-try"] if in_try else [])}
 
 
 def run_three(p):
@@ -1240,7 +1291,7 @@ def gen_cases(rng, tier, search):
     for sc in scenarios():
         cases.append(Case(sc, to_line(sc), tags=("scenario", sc["tag"])))
     for _ in range(12 if tier == "quick" else 60):
-        for mk in (reentrant_case, overlap_case):
+        for mk in (reentrant_case, overlap_case, deep_setctx_case):
             p = mk(rng)
             cases.append(Case(p, to_line(p), tags=tuple(["interp", p["tag"]] + p["tags"])))
     for _ in range(n_rand):
@@ -1318,7 +1369,8 @@ common._execute = _execute
 
 def verdict(c):
     r = c.payload.get("_run", {})
-    if r.get("call_restore"):
+    deep = c.payload.get("switch_ops") or {}
+    if r.get("call_restore") and not deep:
         return "evaluator pointers not restored after a call: " + r["call_restore"][0]
     if c.payload["kind"] == "ha":
         if r["impl_tabs"] != r["oracle_tabs"]:
@@ -1327,8 +1379,15 @@ def verdict(c):
     impl, orc = _strip_ptrs(r["impl"]), r["oracle"]
     # pointers after every top-level statement == pointers before it (except the documented switch)
     ops = [o for o in c.payload["ops"]]
-    for o, pr in zip(ops, r["restored"]):
+    for k, (o, pr) in enumerate(zip(ops, r["restored"])):
         if pr is None or o[0] != "run" or o[2][0] == "setctx":
+            continue
+        if str(k) in deep:
+            # a set_global_ctx(T) was executed some calls below this statement: back at the top level every pointer
+            # must designate T (documented context switch)
+            t = deep[str(k)]
+            if pr[1] != f"{t}/{t}/G:{t}/0":
+                return f"after set_global_ctx({t}) executed at call depth >= 2 the evaluator's pointers are {pr[1]}"
             continue
         if pr[0] != pr[1]:
             return f"evaluator pointers not restored after statement {o[2][0]}: {pr[0]} -> {pr[1]}"
@@ -1357,6 +1416,8 @@ def classify(c, reason):
     r = p.get("_run", {})
     if "pointers not restored" in reason:
         return "pointers-not-restored"
+    if reason.startswith("after set_global_ctx("):
+        return "pointers-wrong-after-set_global_ctx-below-top-level"
     impl = r.get("impl") or r.get("impl_tabs") or ""
     orc = r.get("oracle") or r.get("oracle_tabs") or ""
     il = {t.split("{")[0] for t in impl.split(" | ")[-1].split(" ")}
@@ -1412,7 +1473,7 @@ def shrink(c, reason):
     """drop ops from the end / single ops while the same classification persists"""
     sig = classify(c, reason)
     p = {k: v for k, v in c.payload.items() if k != "_run"}
-    if p["kind"] != "interp":
+    if p["kind"] != "interp" or p.get("switch_ops"):
         return c
     best = c
     ops = list(p["ops"])
